@@ -76,9 +76,24 @@ def verify_anchors(prog: Program) -> List[str]:
                             "derived dimension (anchor F2 of R09.7 moved)")
     out.append("F2: _replace_factors uses _ratios[unit], larger alternatives only, skips total exponent <= 1")
     pc = prog.func("conversions._plan_conversion")
-    calls = [ast.unparse(n.func) for n in ast.walk(pc.node) if isinstance(n, ast.Call)]
     need = ["_find_path", "_replace_factors", "_match_factors", "_cancel_factors", "_inline_paths"]
-    raises = any(isinstance(n, ast.Raise) and "ConversionNotFound" in ast.unparse(n) for n in ast.walk(pc.node))
+    # the function and the same-module helpers it is split into (the planner stages themselves are not entered)
+    from .effects import raise_sites
+    calls: List[str] = []
+    raises = False
+    seen3: Set[str] = set()
+    todo3 = [pc.qual]
+    while todo3:
+        q = todo3.pop()
+        if q in seen3 or q not in prog.functions:
+            continue
+        seen3.add(q)
+        raises = raises or any(rs.exc == "ConversionNotFound" for rs in raise_sites(prog, q))
+        for n in ast.walk(prog.functions[q].node):
+            if isinstance(n, ast.Call):
+                calls.append(ast.unparse(n.func))
+                if isinstance(n.func, ast.Name) and n.func.id not in need and f"conversions.{n.func.id}" in prog.functions:
+                    todo3.append(f"conversions.{n.func.id}")
     if not (all(c in calls for c in need) and raises):
         raise AnalysisError("conversions._plan_conversion no longer has the direct / decompose / match / cancel shape (anchor F3 of R09.7 moved)")
     out.append("F3: _plan_conversion = direct path, decompose, match, cancel, else ConversionNotFound")
